@@ -216,12 +216,100 @@ def runAbort (j : Json) : R Json := do
     ("abortEvents", .arr ((events l).toArray.map evOut)),
     ("abortCalls", .arr ((calls l).toArray.map (fun p => .arr #[nOut p.1, evOut p.2])))]
 
+/-- a value assigned to `stop_training`: `["bool", b] | ["npbool", b] | ["int", n] | ["tensor", b] | ["none"] | ["str", s]` -/
+def pyValIn (j : Json) : R PyVal := do
+  let a ← jArr j
+  let tag ← jStr (a[0]?.getD .null)
+  match tag, a.size with
+  | "bool", 2 => return .pyBool (← jBool a[1]!)
+  | "npbool", 2 => return .npBool (← jBool a[1]!)
+  | "int", 2 => return .int (← jInt a[1]!)
+  | "tensor", 2 => return .tensor0 (← jBool a[1]!)
+  | "none", 1 => return .none
+  | "str", 2 => return .str (← jStr a[1]!)
+  | _, _ => .error s!"bad value {j.compress}"
+
+/-- op `c12.set_stop`: the statement `nn_state.stop_training = val` on a state whose flag is `flag` (`QV.Train.assignStop`).
+out: {error : kind | null, stop : flag afterwards, truthy : bool(val)} -/
+def runSetStop (j : Json) : R Json := do
+  let v ← pyValIn (← fld j "val")
+  let flag ← jBool (← fld j "flag")
+  let r := assignStop v { stop := flag, notified := false, ver := 0, sched := 0 }
+  return Json.mkObj [("error", match r.1 with | some e => .str e.toString | none => .null),
+    ("stop", .bool r.2.stop), ("truthy", .bool v.truthy)]
+
+/-- op `c12.fit_asg`: `fit` with callbacks that assign to `stop_training` (`QV.Train.fitAsg`).
+in : start, epochs, numBatches, cbs, timer, hasSched, stop0, req_mid, asg : [[i, event, val, catches], …]
+out: the completed run as in `c12.fit` plus {requests : [[i, event], …]}, or
+     {abort : {log, events, calls, err, stop, ver}} when an exception escapes -/
+def runFitAsg (j : Json) : R Json := do
+  let c : Cfg := { start := ← jInt (← fld j "start"), epochs := ← jInt (← fld j "epochs"),
+                   numBatches := ← jNat (← fld j "numBatches"), cbs := (← jNatArr (← fld j "cbs")).toList,
+                   timer := ← jBool (← fld j "timer"), hasSched := ← jBool (← fld j "hasSched") }
+  let stop0 ← jBool (← fld j "stop0")
+  let reqMid ← (← jArr (← fld j "req_mid")).mapM (fun p => do
+    let a ← jArr p
+    return ((← jInt (a[0]?.getD .null)), (← jNat (a[1]?.getD .null))))
+  let asg ← (← jArr (← fld j "asg")).mapM (fun p => do
+    let a ← jArr p
+    return ((← jNat (a[0]?.getD .null)), (← evIn (a[1]?.getD .null)), (← pyValIn (a[2]?.getD .null)),
+            (← jBool (a[3]?.getD .null))))
+  let A : Asg := fun i ev => match asg.find? (fun p => p.1 == i && p.2.1 == ev) with
+    | some p => some (p.2.2.1, p.2.2.2)
+    | none => none
+  let mid : Int → Nat → Bool := fun e b => reqMid.any (fun p => p.1 == e && p.2 == b)
+  let reqs := asg.filter (fun p => (A.req mid).cb p.1 p.2.1)
+  let reqsOut : Json := .arr (reqs.map (fun p => .arr #[nOut p.1, evOut p.2.1]))
+  match fitAsg c A mid stop0 with
+  | .ok r => return (outOf r).mergeObj (Json.mkObj [("requests", reqsOut)])
+  | .error ab => return Json.mkObj [("requests", reqsOut), ("abort", Json.mkObj [
+      ("log", .arr (ab.log.toArray.map entryOut)),
+      ("events", .arr ((events ab.log).toArray.map evOut)),
+      ("calls", .arr ((calls ab.log).toArray.map (fun p => .arr #[nOut p.1, evOut p.2]))),
+      ("err", .str ab.err.toString), ("stop", .bool ab.stop), ("ver", nOut ab.ver)])]
+
+/-- an object offered to a `CallbackList`: a callback identity, or `null` for anything that is not a callback -/
+def cbItemIn (j : Json) : R CbItem :=
+  match j with
+  | .null => .ok .other
+  | v => do return .cb (← jNat v)
+
+/-- `["set", k, item] | ["del", k] | ["insert", k, item] | ["append", item] | ["add", [ids]] | ["radd", [ids]]` -/
+def cbOpIn (j : Json) : R CbOp := do
+  let a ← jArr j
+  let tag ← jStr (a[0]?.getD .null)
+  match tag, a.size with
+  | "set", 3 => return .setItem (← jInt a[1]!) (← cbItemIn a[2]!)
+  | "del", 2 => return .delItem (← jInt a[1]!)
+  | "insert", 3 => return .insert (← jInt a[1]!) (← cbItemIn a[2]!)
+  | "append", 2 => return .append (← cbItemIn a[1]!)
+  | "add", 2 => return .add (← jNatArr a[1]!).toList
+  | "radd", 2 => return .radd (← jNatArr a[1]!).toList
+  | _, _ => .error s!"bad container op {j.compress}"
+
+/-- op `c12.cblist_ops`: a sequence of container operations on `CallbackList(init)`, each in a `try/except`
+(`QV.Train.cbRunOps`), then `len`, `list(cl)` and `cl[k]` for the given `gets`.
+out: {final : [ids], errors : [null | kind, …], gets : [id | {error}], …} -/
+def runCbListOps (j : Json) : R Json := do
+  let init := (← jNatArr (← fld j "init")).toList
+  let ops ← (← jArr (← fld j "ops")).mapM cbOpIn
+  let gets ← (match fldOpt j "gets" with | none => pure #[] | some v => jIntArr v : R (Array Int))
+  let r := cbRunOps init ops.toList
+  return Json.mkObj [
+    ("final", .arr (r.1.toArray.map nOut)),
+    ("errors", .arr (r.2.toArray.map (fun e => match e with | some e => .str e.toString | none => .null))),
+    ("gets", .arr (gets.map (fun k => match cbGetItem r.1 k with | .ok x => nOut x | .error e => errOut e))),
+    ("dispatched", .arr ((wrapCallbacks (.cbList r.1)).toArray.map nOut))]
+
 def handle (op : String) (j : Json) : Option (R Json) :=
   match op with
   | "c12.fit" => some (runFit j)
   | "c12.session" => some (runSession j)
   | "c12.lambda_init" => some (runLambdaInit j)
   | "c12.abort" => some (runAbort j)
+  | "c12.set_stop" => some (runSetStop j)
+  | "c12.fit_asg" => some (runFitAsg j)
+  | "c12.cblist_ops" => some (runCbListOps j)
   | _ => none
 
 end Drv.C12
